@@ -6,14 +6,15 @@
 #include <sys/mman.h>
 #include <unistd.h>
 #include "../drv/enum.h"
+#include "vp_literals.h" // generated per unit: integer literals of the library sources
 extern "C" {
 #include "a/crc.h"
 #include "a/hash.h"
 }
 
-enum { L_W8, L_W16, L_W32, L_W64, L_MSB, L_LSB, L_POLY_TOPBIT, L_INIT_NONZERO, L_SPLIT3, L_LONG, L_HASH_BKDR, L_HASH_SDBM, L_HIGH_BYTE, L_NUL_INSIDE, L_PUBLISHED_POLY, L_WORD_RECORDS };
+enum { L_W8, L_W16, L_W32, L_W64, L_MSB, L_LSB, L_POLY_TOPBIT, L_INIT_NONZERO, L_SPLIT3, L_LONG, L_HASH_BKDR, L_HASH_SDBM, L_HIGH_BYTE, L_NUL_INSIDE, L_PUBLISHED_POLY, L_WORD_RECORDS, L_POLY_REVERSED_WORD, L_POLY_FROM_SOURCE_LITERAL };
 static char const *const labels[] = {"crc8", "crc16", "crc32", "crc64", "msb_first", "lsb_first", "polynomial_top_bit_set", "initial_value_nonzero", "three_way_split",
-                                     "message_ge_64_bytes", "hash_bkdr", "hash_sdbm", "byte_ge_0x80", "nul_inside_message", "published_polynomial", "message_of_machine_word_records", nullptr};
+                                     "message_ge_64_bytes", "hash_bkdr", "hash_sdbm", "byte_ge_0x80", "nul_inside_message", "published_polynomial", "message_of_machine_word_records", "polynomial_is_bit_reversal_of_a_tape_word", "polynomial_is_a_literal_of_the_library_source_or_its_reversal", nullptr};
 static char const *const metrics[] = {nullptr};
 static uint8_t const dict[] = {0x31, 0x39, 0x07, 0x1D, 0xB7, 0x21, 0x10};
 static vp_info const info = {"C17", "crc_hash", "", labels, metrics, 360, dict, sizeof(dict)};
@@ -192,6 +193,20 @@ static void run_case(Tape &t, Ctx &cx)
             default: poly = pub64[pc / 3 % 4]; break;
             }
             cx.label(L_PUBLISHED_POLY);
+        }
+        else if (pc % 3 == 1 && (pc / 3) % 2 == 0)
+        {
+            // the bit reversal of a tape word: the lsb-first initialisers reflect the polynomial internally, so this form puts the
+            // value they actually work with into the tape byte for byte (comparison-guided mutation can then match constants)
+            poly = ref_rev(t.u64() & mask_w(w), w);
+            cx.label(L_POLY_REVERSED_WORD);
+        }
+        else if (pc % 3 == 2 && (pc / 3) % 4 == 0 && vp_nliterals)
+        {
+            // a literal that occurs in the library's own source, or its bit reversal (constants the code compares against)
+            uint64_t v = vp_literals[t.u16() % vp_nliterals];
+            poly = (t.coin() ? ref_rev(v & mask_w(w), w) : v) & mask_w(w);
+            cx.label(L_POLY_FROM_SOURCE_LITERAL);
         }
         else { poly = gen_word(t, w); }
         uint64_t init = gen_word(t, w);
